@@ -1,6 +1,15 @@
 import FalconModel.Dispatch
 open Dp
 
+/-! Line protocol of the dispatch model (C02). One request per line, space separated `key=value` words after the kind:
+
+      get|http sbs=0|1 ops=s0,t1,… route=<rid>|- attrs=GET,POST~alt,…|- suffix=<s>|- combined=<COMBINED_METHODS>
+               hits=s0,t1,…|- method=<M> fields=k:v;k:v|- groups=s0>k:v;k:v|s3>…|-
+
+    `get`  = `App._get_responder` (method may be the meta method WEBSOCKET), `http` = the HTTP entry point.
+    Reply: `<responder> kw=<k:v;…|->` with responder one of
+      resource:<rid>:<METHOD>[~suffix] | options:<allow,…> | 405:<allow,…> | 400 | sink:<id> | static:<id> | 404 -/
+
 def kv (ws : List String) (k : String) : String :=
   match ws.find? (·.startsWith (k ++ "=")) with
   | some s => (s.drop (k.length + 1)).toString
@@ -13,8 +22,21 @@ def parseEntry (s : String) : Option (Kind × Nat) :=
   | 't' :: r => (String.ofList r).toNat?.map fun n => (Kind.static, n)
   | _ => none
 
-def showR : Responder → String
-  | .resource rid m => s!"resource:{rid}:{m}"
+def parseAttr (s : String) : Attr :=
+  match s.splitOn "~" with
+  | [m, sfx] => { method := m, suffix := some sfx }
+  | _ => { method := s, suffix := none }
+
+def parseKw (s : String) : Kw :=
+  (splitNE s ";").filterMap fun it =>
+    match it.splitOn ":" with
+    | k :: rest => some (k, ":".intercalate rest)
+    | [] => none
+
+def showKw (k : Kw) : String := if k.isEmpty then "-" else ";".intercalate (k.map fun (a, b) => a ++ ":" ++ b)
+
+def showR (sfx : Option String) : Responder → String
+  | .resource rid m => s!"resource:{rid}:{m}" ++ (match sfx with | some s => "~" ++ s | none => "")
   | .options al => s!"options:{",".intercalate al}"
   | .notAllowed al => s!"405:{",".intercalate al}"
   | .badRequest => "400"
@@ -22,20 +44,35 @@ def showR : Responder → String
   | .static id => s!"static:{id}"
   | .notFound => "404"
 
-def runCase (ws : List String) : String :=
+def runCase (kind : String) (ws : List String) : String :=
   let ops := (splitNE (kv ws "ops") ",").filterMap parseEntry
   let app := ops.foldl (fun a e => match e with | (.sink, id) => a.addSink id | (.static, id) => a.addStatic id)
     ({ sinkFirst := kv ws "sbs" == "1" } : App)
   let hits := (splitNE (kv ws "hits") ",").filterMap parseEntry
+  let sfx : Option String := if kv ws "suffix" == "-" || kv ws "suffix" == "" then none else some (kv ws "suffix")
   let route : Option MethodMap :=
-    match (kv ws "route").splitOn ":" with
-    | [rid, impl] => some { rid := rid.toNat!, impl := splitNE impl ",", combined := splitNE (kv ws "combined") "," }
+    match (kv ws "route").toNat? with
+    | some rid => some (mkMethodMap rid (splitNE (kv ws "combined") ",") ((splitNE (kv ws "attrs") ",").map parseAttr) sfx)
+    | none => none
+  let hitf : Kind × Nat → Bool := fun e => hits.contains e
+  let groupTab : List (Nat × Kw) := (splitNE (kv ws "groups") "|").filterMap fun g =>
+    match g.splitOn ">" with
+    | [sid, body] => (parseEntry sid).map fun e => (e.2, parseKw body)
     | _ => none
-  showR (app.getResponder route (kv ws "method") (fun e => hits.contains e))
+  let groups : Nat → Kw := fun id => ((groupTab.find? (·.1 == id)).map (·.2)).getD []
+  let method := kv ws "method"
+  let r := if kind == "http" then app.dispatchHttp route method hitf else app.getResponder route method hitf
+  -- the keyword arguments only reach a responder that is actually called with them
+  let kw := match r with
+    | .resource .. | .sink .. | .static .. => app.getParams (route.map fun _ => parseKw (kv ws "fields")) hitf groups
+    | _ => []
+  showR sfx r ++ " kw=" ++ showKw kw
 
 partial def loop (h : IO.FS.Stream) : IO Unit := do
   let line ← h.getLine
   if line.isEmpty then return ()
-  IO.println (runCase (line.trimAscii.toString.splitOn " "))
+  match line.trimAscii.toString.splitOn " " with
+  | kind :: ws => IO.println (runCase kind ws)
+  | [] => IO.println "bad-line"
   loop h
 def main : IO Unit := do loop (← IO.getStdin)
